@@ -33,7 +33,7 @@ def main():
                 if s.count(old) != 1:
                     print("pattern occurs %d times in %s" % (s.count(old), f)); return 2
                 open(p, "w").write(s.replace(old, new))
-        r = sh("cd /repo && go build ./... && go vet ./... >/dev/null 2>&1; go test -count=1 ./... 2>&1 | grep -v 'no test files'")
+        r = sh("cd /repo && go build ./... && go vet ./... >/dev/null 2>&1; go test -count=1 -timeout 120s ./... 2>&1 | grep -v 'no test files'")
         tests_ok = "FAIL" not in r.stdout and r.returncode == 0
         if not tests_ok:
             print(r.stdout[-1500:])
